@@ -223,6 +223,18 @@ type clientCfg struct {
 	maxVer  uint16
 	ciphers []uint16
 	curves  []tls.CurveID
+	rndSet  bool // the client's random source yields the byte `rnd` forever (broken / deterministic RNG, replayed random)
+	rnd     byte
+}
+
+// constReader is a random source that yields one byte value forever
+type constReader byte
+
+func (c constReader) Read(b []byte) (int, error) {
+	for i := range b {
+		b[i] = byte(c)
+	}
+	return len(b), nil
 }
 
 // dialProxy completes a real TLS handshake with the proxy and returns the connection, the recorder and the
@@ -243,6 +255,9 @@ func dialProxy(e *e2eEnv, c clientCfg) (net.Conn, *recConn, string, error) {
 	if c.kind == "go" {
 		cfg := &tls.Config{RootCAs: pool, ServerName: c.sni, NextProtos: c.alpn, MinVersion: c.minVer, MaxVersion: c.maxVer,
 			CipherSuites: c.ciphers, CurvePreferences: c.curves}
+		if c.rndSet {
+			cfg.Rand = constReader(c.rnd)
+		}
 		if c.sni == "" {
 			cfg.InsecureSkipVerify = true
 		}
@@ -258,6 +273,12 @@ func dialProxy(e *e2eEnv, c clientCfg) (net.Conn, *recConn, string, error) {
 		"utls-golang": utls.HelloGolang, "utls-edge": utls.HelloEdge_106, "utls-chrome-pq": utls.HelloChrome_115_PQ,
 		"utls-360": utls.Hello360_11_0, "utls-qq": utls.HelloQQ_11_1}[c.kind]
 	ucfg := &utls.Config{ServerName: c.sni, InsecureSkipVerify: true, NextProtos: c.alpn}
+	ipSNI := net.ParseIP(c.sni) != nil
+	if ipSNI {
+		// an IP literal in server_name (RFC 6066 forbids it, clients do it, crypto/tls accepts it): utls would omit the
+		// extension, so the name is put in place below
+		ucfg.ServerName = "placeholder.test"
+	}
 	uc := utls.UClient(rc, ucfg, id)
 	if c.kind == "utls-nopf" {
 		// a TLS 1.3 stack that sends no ec_point_formats extension (rustls and friends): the Firefox preset minus that extension
@@ -285,6 +306,17 @@ func dialProxy(e *e2eEnv, c clientCfg) (net.Conn, *recConn, string, error) {
 			for _, ext := range uc.Extensions {
 				if a, ok := ext.(*utls.ALPNExtension); ok {
 					a.AlpnProtocols = c.alpn
+				}
+			}
+		}
+	}
+	if ipSNI {
+		if err := uc.BuildHandshakeState(); err == nil {
+			for k, ext := range uc.Extensions {
+				if _, ok := ext.(*utls.SNIExtension); ok {
+					n := []byte(c.sni)
+					d := []byte{byte((len(n) + 3) >> 8), byte(len(n) + 3), 0, byte(len(n) >> 8), byte(len(n))}
+					uc.Extensions[k] = &utls.GenericExtension{Id: 0, Data: append(d, n...)}
 				}
 			}
 		}
